@@ -22,6 +22,17 @@ pub const ASSUME_VAL: &[&str] = &[
     "lean_string built with feature verif-hooks and debug assertions; shadow heap on (guard zones catch out-of-bounds digit writes)",
 ];
 
+/// A panic out of the crate on a legal input is a mismatch with std (which does not panic).
+fn guard(f: impl FnOnce() -> Result<(), String>) -> Result<(), String> {
+    match std::panic::catch_unwind(std::panic::AssertUnwindSafe(f)) {
+        Ok(r) => r,
+        Err(p) => {
+            let msg = p.downcast_ref::<String>().cloned().or_else(|| p.downcast_ref::<&str>().map(|s| s.to_string())).unwrap_or_else(|| "panic".into());
+            Err(format!("the conversion panicked: {msg}"))
+        }
+    }
+}
+
 struct StackBuf {
     b: [u8; 64],
     n: usize,
@@ -62,6 +73,10 @@ fn end() {
 
 /// one integer value of one type; returns Err(detail) on mismatch
 fn check_int<T: std::fmt::Display + ToLeanString + Copy>(v: T) -> Result<(), String> {
+    guard(|| check_int_inner(v))
+}
+
+fn check_int_inner<T: std::fmt::Display + ToLeanString + Copy>(v: T) -> Result<(), String> {
     let mut w = StackBuf { b: [0; 64], n: 0 };
     write!(w, "{v}").map_err(|_| "stack buffer overflow".to_string())?;
     let want = &w.b[..w.n];
@@ -338,10 +353,11 @@ pub fn c14(tier: Tier, seed: u64) -> Verdict {
 
 // ------------------------------------------------------------------------------------------ C15
 
-fn tls_eq<T: std::fmt::Display + ToLeanString + ?Sized>(v: &T, what: &str) -> Result<(), String>
-where
-    T: Sized,
-{
+fn tls_eq<T: std::fmt::Display + ToLeanString>(v: &T, what: &str) -> Result<(), String> {
+    guard(|| tls_eq_inner(v, what))
+}
+
+fn tls_eq_inner<T: std::fmt::Display + ToLeanString>(v: &T, what: &str) -> Result<(), String> {
     let want = v.to_string();
     let got = v.to_lean_string();
     if got.as_str() != want {
@@ -354,6 +370,10 @@ where
 }
 
 pub fn check_f32(bits: u32) -> Result<(), String> {
+    guard(|| check_f32_inner(bits))
+}
+
+fn check_f32_inner(bits: u32) -> Result<(), String> {
     let v = f32::from_bits(bits);
     let s = v.to_lean_string();
     let t = v.try_to_lean_string().map_err(|e| format!("try_to_lean_string Err({e})"))?;
@@ -368,6 +388,10 @@ pub fn check_f32(bits: u32) -> Result<(), String> {
 }
 
 pub fn check_f64(bits: u64) -> Result<(), String> {
+    guard(|| check_f64_inner(bits))
+}
+
+fn check_f64_inner(bits: u64) -> Result<(), String> {
     let v = f64::from_bits(bits);
     let s = v.to_lean_string();
     let t = v.try_to_lean_string().map_err(|e| format!("try_to_lean_string Err({e})"))?;
@@ -426,6 +450,10 @@ fn c15_violation(case: Value, detail: String) -> Violation {
 }
 
 pub fn check_text_routes(t: &str) -> Result<(), String> {
+    guard(|| check_text_routes_inner(t))
+}
+
+fn check_text_routes_inner(t: &str) -> Result<(), String> {
     tls_eq(&t.to_string(), "String")?;
     tls_eq(&t, "&str (generic arm)")?;
     tls_eq(&Cow::Borrowed(t), "Cow (generic arm)")?;
@@ -644,6 +672,10 @@ pub const BYTE_ALPHA_MIN: [u8; 15] = [0x41, 0x80, 0x8f, 0x90, 0x9f, 0xa0, 0xbf, 
 pub const U16_ALPHA: [u16; 12] = [0x0041, 0x00e9, 0x07ff, 0x0800, 0xd7ff, 0xd800, 0xdbff, 0xdc00, 0xdfff, 0xe000, 0xfffd, 0xffff];
 
 pub fn check_utf8(b: &[u8]) -> Result<(), String> {
+    guard(|| check_utf8_inner(b))
+}
+
+fn check_utf8_inner(b: &[u8]) -> Result<(), String> {
     let want = String::from_utf8(b.to_vec());
     let got = LeanString::from_utf8(b);
     match (&want, &got) {
@@ -670,6 +702,10 @@ pub fn check_utf8(b: &[u8]) -> Result<(), String> {
 }
 
 pub fn check_utf16(u: &[u16]) -> Result<(), String> {
+    guard(|| check_utf16_inner(u))
+}
+
+fn check_utf16_inner(u: &[u16]) -> Result<(), String> {
     let want = String::from_utf16(u);
     let got = LeanString::from_utf16(u);
     match (&want, &got) {
